@@ -31,7 +31,7 @@ func collectFields(reqCtx *OperationContext, selSet ast.SelectionSet, satisfies 
 			if !shouldIncludeNode(sel.Directives, reqCtx.Variables) {
 				continue
 			}
-			f := getOrCreateAndAppendField(&groupedFields, sel.Name, sel.Alias, sel.ObjectDefinition, func() CollectedField {
+			f := getOrCreateAndAppendField(&groupedFields, sel.Name, sel.Alias, sel.ObjectDefinition, len(satisfies) > 0, func() CollectedField {
 				return CollectedField{Field: sel}
 			})
 
@@ -58,7 +58,7 @@ func collectFields(reqCtx *OperationContext, selSet ast.SelectionSet, satisfies 
 
 			for _, childField := range collectFields(reqCtx, sel.SelectionSet, satisfies, visited) {
 				f := getOrCreateAndAppendField(
-					&groupedFields, childField.Name, childField.Alias, childField.ObjectDefinition,
+					&groupedFields, childField.Name, childField.Alias, childField.ObjectDefinition, len(satisfies) > 0,
 					func() CollectedField { return childField })
 				f.Selections = append(f.Selections, childField.Selections...)
 				if shouldDefer {
@@ -95,7 +95,7 @@ func collectFields(reqCtx *OperationContext, selSet ast.SelectionSet, satisfies 
 
 			for _, childField := range collectFields(reqCtx, fragment.SelectionSet, satisfies, visited) {
 				f := getOrCreateAndAppendField(&groupedFields,
-					childField.Name, childField.Alias, childField.ObjectDefinition,
+					childField.Name, childField.Alias, childField.ObjectDefinition, len(satisfies) > 0,
 					func() CollectedField { return childField })
 				f.Selections = append(f.Selections, childField.Selections...)
 				if shouldDefer {
@@ -127,7 +127,12 @@ func instanceOf(val string, satisfies []string) bool {
 	return false
 }
 
-func getOrCreateAndAppendField(c *[]CollectedField, name, alias string, objectDefinition *ast.Definition, creator func() CollectedField) *CollectedField {
+// getOrCreateAndAppendField merges a field into an already collected field with the same name and
+// alias when both belong to the same object. sameObject reports that the fields are being collected
+// for one concrete object (a non-empty satisfies list): every definition that got this far then
+// describes that object, so a field reached through an interface or union is the same field as one
+// reached through another interface, union or the object itself.
+func getOrCreateAndAppendField(c *[]CollectedField, name, alias string, objectDefinition *ast.Definition, sameObject bool, creator func() CollectedField) *CollectedField {
 	for i, cf := range *c {
 		if cf.Name == name && cf.Alias == alias {
 			if cf.ObjectDefinition == objectDefinition {
@@ -139,6 +144,10 @@ func getOrCreateAndAppendField(c *[]CollectedField, name, alias string, objectDe
 			}
 
 			if cf.ObjectDefinition.Name == objectDefinition.Name {
+				return &(*c)[i]
+			}
+
+			if sameObject && (cf.ObjectDefinition.IsAbstractType() || objectDefinition.IsAbstractType()) {
 				return &(*c)[i]
 			}
 
